@@ -16,6 +16,7 @@ func init() {
 	reg("C10_EmitNFTTransfer", C10_EmitNFTTransfer)
 	reg("C10_EmitMultiTransfer", C10_EmitMultiTransfer)
 	reg("C10_EmitMultiTransfer2X", C10_EmitMultiTransfer2X)
+	reg("C10_EmitMultiTransferManyItems", C10_EmitMultiTransferManyItems)
 	reg("C10T_ParserLedgerMultiSender2", C10T_ParserLedgerMultiSender2)
 	reg("C10_EmitESDTBurn", C10_EmitESDTBurn)
 	reg("C10_EmitCreateRoleTransfer", C10_EmitCreateRoleTransfer)
@@ -155,6 +156,16 @@ func C10_EmitMultiTransfer2X() {
 	o.MultiK = 2
 	o.CrossOnly = true
 	o.NoCall = !verif.Thorough()
+	emitMulti(o)
+}
+
+// C10_EmitMultiTransferManyItems: the item count of the cross-shard message is a number, not a
+// byte: 255, 256 and 257 items (all the same concrete fungible item, so that only the count varies)
+// are announced as 255, 256 and 257.
+func C10_EmitMultiTransferManyItems() {
+	o := wireOpt
+	o.MultiK = 255 + verif.Choose("items-255-plus", 3)
+	o.CrossOnly, o.NoCall, o.SameItems, o.Direct, o.NoPause, o.NoFrozen = true, true, true, true, true, true
 	emitMulti(o)
 }
 
